@@ -20,7 +20,7 @@ BUDGET = {'quick': {'examples': 480, 'wall': 200}, 'thorough': {'examples': 2000
 ASSUMPTIONS = ['pattern integral by quadrature of the program\'s own dBi table (32 x 48 nodes, doubled near the margin)',
                'load dissipation from reference load formulas (pv/ref/loads.py)']
 LABEL_FLOORS = {'power-factor>=0.1': 0.3, 'env-ideal': 0.2, 'env-real': 0.15, 'multi-source': 0.3, 'loaded': 0.3, 'curve': 0.08,
-                'absorbing-source': 0.05, 'grounded-end2': 0.03}
+                'absorbing-source': 0.05, 'grounded-end2': 0.03, 'load-on-gnd': 0.02}
 
 
 @st.composite
@@ -38,7 +38,11 @@ def case_strategy(draw, big=False):
         kind = draw(st.sampled_from(['lumped', 'lumped', 'skin', 'ins']))
         if kind == 'lumped':
             l = draw(gen.lumped_load(kinds=('z', 'rlc', 'trap', 'laplace')))
-            l['attach'] = [draw(st.integers(0, len(topo.pulses) - 1))]
+            gp = [p.idx for p in topo.pulses if p.kind == 'gnd']
+            if gp and draw(st.integers(0, 2)) == 0:
+                l['attach'] = [draw(st.sampled_from(gp))]
+            else:
+                l['attach'] = [draw(st.integers(0, len(topo.pulses) - 1))]
             lds.append(l)
         elif kind == 'skin' and not any(x['kind'].startswith('skin') for x in lds):
             lds.append({'kind': 'skin_c', 'v': gen.r6(draw(gen.logf(1e4, 1e8))), 'tag': draw(st.sampled_from([None] + tagsl))})
@@ -129,6 +133,8 @@ def check(case):
     nt = ground or len(V) > 1 or bool(case['loads']) or any(p.kind == 'junc' for p in topo.pulses)
     if case['loads']:
         labels.append('loaded')
+        if any(topo.pulses[a].kind == 'gnd' for l in case['loads'] for a in l.get('attach', []) if isinstance(a, int)):
+            labels.append('load-on-gnd')
         for l in case['loads']:
             labels.append('load-' + l['kind'])
     if any(o['obj']['type'] != 'wire' for o in topo.objs):
